@@ -376,12 +376,13 @@ def regenerate_all():
     c1 = write_if_changed(GEN / "Kernels.lean", k)
     c2 = write_if_changed(GEN / "Tables.lean", t)
     rep = dict(kernels=r1, tables=r2, changed=dict(kernels=c1, tables=c2))
-    try:
-        from translate import effects
-        rep["effects"] = effects.regenerate()
-    except ImportError:
-        pass
     return rep
+
+
+def regenerate_effects():
+    """T-eff: one effect program + certificate + obligation per koala function (Generated/Effects.lean)"""
+    from translate import effects
+    return effects.generate()
 
 
 if __name__ == "__main__":
